@@ -23,7 +23,7 @@ def gen(tier, seed):
     cases = []
     for kind in ('SE2', 'SE3', 'R2', 'R3'):
         for n_poses in (2, 3, 4):
-            for _ in range(10 if thorough else 2):
+            for _ in range(30 if thorough else 2):
                 c = GC.gen_graph(rnd, kind, n_poses, rnd.choice([0, 1, 2]), rnd.choice([0, 1]), custom=False, fixed_mode=rnd.choice(['first', 'some']), fix_first=True)
                 TT = (EC.T2 + EC.T2L) if B.DIM[kind] == 2 else (EC.T3 + EC.T3L)
                 if kind == 'SE2':
